@@ -6,6 +6,7 @@ import (
 	"os"
 	"os/exec"
 	"path/filepath"
+	"runtime"
 	"sync"
 
 	"verifharness/vlib"
@@ -19,6 +20,10 @@ import (
 // job file; a child runs the items i = shard (mod n) of that phase one after
 // the other and writes what it counted and found; the parent merges. Which
 // items exist and what each does never depends on the number of children.
+
+// Measured on the idle 16-core VM: fresh-memory page faults (10 MB per ApplyDiff, every RocksDB open) are
+// a machine-wide bottleneck - 16 concurrent processes get ~2.5x the throughput of one, 8 are fastest.
+const maxProcs = 8
 
 type compGob struct {
 	Dir string
@@ -107,6 +112,9 @@ func (w *world) run(phase string, total int, f *findings, b *bfs, extra func(*jo
 		return
 	}
 	n := vlib.Workers()
+	if n > maxProcs {
+		n = maxProcs
+	}
 	if n > total {
 		n = total
 	}
@@ -131,7 +139,12 @@ func (w *world) run(phase string, total int, f *findings, b *bfs, extra func(*jo
 		j.Out = filepath.Join(w.scratch, fmt.Sprintf("out-%s-%d.gob", phase, k))
 		jf := filepath.Join(w.scratch, fmt.Sprintf("job-%s-%d.gob", phase, k))
 		writeGob(jf, &j)
+		// one CPU per worker process: its address space then lives on one CPU and the constant
+		// mmap/munmap of RocksDB opens and thread stacks needs no cross-CPU TLB shootdowns
 		cmd := exec.Command(os.Args[0], w.r.Tier, "--c08-child", jf)
+		if ts, err := exec.LookPath("taskset"); err == nil && os.Getenv("VERIF_C08_NOPIN") == "" {
+			cmd = exec.Command(ts, "-c", fmt.Sprint(k%runtime.NumCPU()), os.Args[0], w.r.Tier, "--c08-child", jf)
+		}
 		cmd.Stdout, cmd.Stderr = os.Stderr, os.Stderr
 		cmd.Env = append(os.Environ(), "VERIF_WORKERS=1", "GOMAXPROCS=2")
 		wg.Add(1)
@@ -197,7 +210,7 @@ func childMain(r *vlib.Run, jobFile string) {
 	readGob(jobFile, &j)
 	os.Setenv("TMPDIR", j.Scratch)
 	dirPrefix = fmt.Sprintf("%s%d-", j.Phase, j.Shard)
-	w := &world{r: r, scratch: j.Scratch, fams: j.Fams, child: &j}
+	w := &world{r: r, scratch: j.Scratch, fams: j.Fams, child: &j, p: tierParams(r.Thorough())}
 	w.states = buildStates(r, j.Fams)
 	w.comp = make([][]*compiled, len(j.Comp))
 	for li := range j.Comp {
